@@ -9,17 +9,27 @@
    USING the object only BORROWS: any number of threads may be inside calls through the same reference at the same
    time (priv KBX / KBI count the calls in progress that borrow an external / internal reference).
 
-   CLIENT CONTRACT (what `reach` quantifies over; everything else is the most general client, any number of threads,
-   any interleaving, spurious weak-CAS failures included):
-   (1) reference discipline (Refcnt.call_guard): a call uses the object through a reference that exists; a release takes
-       the reference it releases out of the pool; while calls in progress borrow a reference of a level, the owners
-       of that level do not release the last reference of that level; a leave consumes an enter that has returned;
-   (2) bounds (Refcnt.contract_r, checked on every step of a run): fewer than 2^31-2 references of each level and
-       fewer than 2^30-1 outstanding enters (beyond them the model does what C does: the counter wraps / the
-       "Too many nested calls" crash is taken);
-   (3) the one fact used about the part of dg_state kept abstract here (generation, HAS_WAITERS: C07's subject): when
-       the group is disposed, the low word of dg_state is non-zero only if the value or HAS_NOTIFS are (HAS_WAITERS
-       is not left set on an empty group); otherwise the "deallocated while in use" crash is taken in the model too.
+   WHAT `reach` QUANTIFIES OVER (everything else is the most general client: any number of threads, any interleaving,
+   spurious weak-CAS failures included):
+   (1) reference discipline (Refcnt.call_guard).  It is an ENABLING CONDITION inside gstep: a call that violates it is
+       not a step of the model at all (it is NOT modelled as a crash; an over-release or an unbalanced leave simply do
+       not exist here).  A call uses the object through a reference that exists in a pool; a release takes the reference
+       it releases out of the pool; while calls in progress borrow a reference of a level, the owners of that level do not
+       release the last reference of that level; a leave consumes an enter that has returned.
+       EXCLUDED although legal in C: using a group UNDER AN OUTSTANDING ENTER ONLY, i.e. after the last external and
+       internal reference are gone (e.g. `dispatch_group_async(g, q, ^{ dispatch_group_async(g, ...); }); dispatch_release(g);`
+       — the inner call is made while only the outer block's enter keeps g alive).  In the model enter / notify /
+       set_context / retain_weak need an external or internal reference to borrow; the enter's own +1 is not accepted as
+       the keeper.  Such clients are outside every theorem below (the differential harness does not exercise them either);
+   (2) bounds (Refcnt.contract_r, an explicit hypothesis on every step of a run, restated by C17_contract_is): fewer than
+       2^31-2 references of each level and fewer than 2^30-1 outstanding enters; beyond them the model does what C does
+       (the counter wraps / the "Too many nested calls" crash is taken);
+   (3) an ASSUMPTION ABOUT THE LIBRARY, not about the client, also part of contract_r: when the group is disposed the low
+       word of dg_state is non-zero only if the value or HAS_NOTIFS are, i.e. HAS_WAITERS is not left set on an empty
+       group.  Generation / HAS_WAITERS / dispatch_group_wait are not part of this model (C07's subject); if the
+       assumption fails the "deallocated while in use" crash is taken in the model too.
+   Tie of the thread automaton to the library: per-thread trace conformance only — Refcnt.tstep does not check the values
+   read against a global state and there is no global replay of recorded runs for C17.
    Generated pieces (Gen_refcnt, Gen_group): rmw-loop bodies of _os_object_retain_weak and _dispatch_group_notify,
    memory orders, constants, atomic-site lists.
 
